@@ -308,7 +308,13 @@ func (w *World) modset(f *ssa.Function) map[string]int { return w.modsetCur(f) }
 func (w *World) computeModsets() {
 	modsetWork = map[*ssa.Function]map[string]int{}
 	var fns []*ssa.Function
-	for _, f := range w.funcs {
+	var names []string
+	for k := range w.funcs {
+		names = append(names, k)
+	}
+	sort.Strings(names) // deterministic discovery order of heap keys, type ids and declarations
+	for _, k := range names {
+		f := w.funcs[k]
 		fns = append(fns, f)
 		modsetWork[f] = map[string]int{}
 	}
